@@ -29,6 +29,20 @@ CHECKS = {
              design="7/C18", note="Bit rows with symbolic reserved bits are decided for one representative low-12-bit pattern per class; for all low 12 bits with reserved bits zero."),
  "C20": dict(text="Value sets and names of all primitive types (full width), selector totality of every union field (symbolic selector through the real process_tpmu), command-code totality and naming (symbolic code) decided by the solver; structural facts and the regenerated layout encoding compared with the pinned snapshot directly.",
              design="7/C20", note="The snapshot oracle/pinned/layout.json is the trusted 'pinned TPM 2.0 layout'; it was taken from the tree after the fix commits and audited as described in DESIGN.md."),
+ "C08": dict(text="Warn-mode decode of every byte string up to N for region-bearing types and of size/value variants of shapes: nothing but the two documented value errors aborts, the emitted fields tile the input (resuming at the declared end after an overrun/shortfall), value-only problems equal the lenient reference interpretation with one warning after each offending event.",
+             design="7/C08", note="One known finding (AssertionError in process_response, same site as C06) filtered by call site; six warn-mode defects were repaired by fix commits."),
+ "C09": dict(text="Stream shapes of 1-2 (thorough 3) generated command/response pairs, full-range leaves and the session attribute bytes symbolic: the stream decode equals the harness-chained single decodes (response gets the command's code and encrypt request) and events_to_objs yields the single decodes' objects in order.",
+             design="7/C09", note=""),
+ "C10": dict(text="Explored shapes and streams through a counting iterator: at every event at most one byte beyond the emitted fields was pulled; every cut's events are a prefix containing every complete field; five other source kinds give identical events; the hex front-end pulls no further than the completing character (all texts up to L).",
+             design="7/C10", note=""),
+ "C11": dict(text="Every generated shape (interval leaves symbolic) and every byte string up to N per structure type: decoder object == object rebuilt from events, both turn back into exactly the decoded events and re-encode to the input; Canonical facade on the concrete shapes.",
+             design="7/C11", note=""),
+ "C12": dict(text="Histories A,B,A / A stepped-B-A finished-A-B over ordered pairs of commands with encrypted parameter areas, pre-emption point and encrypted bytes symbolic: equal events, equal objects, identical synthesized type, B unaffected, events-to-object comparable; all partitions exhaust.",
+             design="7/C12", note="Bounded history length 4, one pre-emption point; the type cache is emptied at the start of every path."),
+ "C14": dict(text="Event streams of explored shapes (strict and warn; byte buffers symbolic, one size field or one leaf symbolic) through the real printers with colours off: no exception, rows follow the prescribed event sequence, hex digits and value texts match symbolically, hex columns cover the decoded bytes; events printer one row per event with exact content.",
+             design="7/C14", note="Reduced scope: enumerated shapes only; column offsets are taken from the printer's own row template; bit-row content is C17/C18."),
+ "C15": dict(text="Hex: every text up to L over all 256 byte values against the stated rule; auto: every 2- and 3-byte magic; pcapng trimming with dpkt stubbed and the size field symbolic one byte at a time; swtpm: documented-layout skeletons with symbolic nibbles/separators and one arbitrary character at a nibble position; Hex/Auto end-to-end on rendered shapes.",
+             design="7/C15", note="dpkt's container parsing is outside (stub); in swtpm logs the character 'S' inside a payload is outside the claim (marker resynchronisation, see DESIGN)."),
  "C13": dict(text="Every strict-mode constraint error reached from all byte strings up to N per type and from size/value variants of shapes: emitted bytes + consumed offending bytes + remaining bytes = input, prefix/suffix exact; relational.",
              design="7/C13", note=""),
 }
